@@ -43,7 +43,7 @@ theorem defaultsOk_mem {ss : Schemas} {fuel : Nat} {extras : List (String × Val
     defaultsOk ss fuel fs extras = true → f ∈ fs → fieldDefaultOk ss fuel f extras = true
   | [], _, _, h => by cases h
   | f0 :: rest, f, hok, h => by
-    rw [defaultsOk, Bool.and_eq_true] at hok
+    rw [defaultsOk_cons, Bool.and_eq_true] at hok
     rcases List.mem_cons.mp h with rfl | hr
     · exact hok.1
     · exact defaultsOk_mem hok.2 hr
@@ -66,8 +66,8 @@ theorem structLit_typed (h : EnvFacts cfg ss) (K : Nat) (fuel : Nat) (ih : Field
     (hnames : fieldNamesOk rfs = true) (htys : fieldsTyOk ss rfs = true)
     (hok : structDefaultOk ss (fuel + 1) rfs d = true) :
     exprTy (emitEnv cfg ss) (K + 2) (defaultsForStruct (ctxOf cfg ss) (fuel + 1) p n rfs d) = .typed (.named (fmtPkg p) (ucc n)) := by
-  rw [structDefaultOk] at hok
-  rw [defaultsForStruct]
+  rw [structDefaultOk_succ] at hok
+  rw [defaultsForStruct_succ]
   have hnd : (fieldNames rfs).Nodup := by
     simp only [fieldNamesOk, Bool.and_eq_true, nodupB_iff] at hnames; exact hnames.2
   simp only [Ctx.mapPkg]
@@ -81,8 +81,8 @@ theorem fieldsFitAt (h : EnvFacts cfg ss) (K : Nat) : ∀ fuel : Nat, FieldsFitA
   induction fuel with
   | zero =>
     intro f extras hty hok
-    rw [fieldDefaultOk] at hok
-    rw [defaultsField]
+    rw [fieldDefaultOk_eq] at hok
+    rw [defaultsField_eq]
     simp only [tyOk_notBad hty, Bool.false_eq_true, if_false, Ctx.resolve, Ctx.fuel, ctxOf]
     cases hres : ss.resolveToType (ss.objectCount + 2) f.ty with
     | none => simp [hres] at hok
@@ -90,11 +90,11 @@ theorem fieldsFitAt (h : EnvFacts cfg ss) (K : Nat) : ∀ fuel : Nat, FieldsFitA
       simp only [hres] at hok ⊢
       refine fieldLit_fits h K f resolved extras _ _ hres hty ?_ hok
       intro p n o rfs g gi om d _ _ _ _ _ hn
-      simp [structDefaultOk] at hn
+      simp [structDefaultOk_zero] at hn
   | succ k ih =>
     intro f extras hty hok
-    rw [fieldDefaultOk] at hok
-    rw [defaultsField]
+    rw [fieldDefaultOk_eq] at hok
+    rw [defaultsField_eq]
     simp only [tyOk_notBad hty, Bool.false_eq_true, if_false, Ctx.resolve, Ctx.fuel, ctxOf]
     cases hres : ss.resolveToType (ss.objectCount + 2) f.ty with
     | none => simp [hres] at hok
